@@ -19,6 +19,7 @@ import (
 	"runtime"
 	"sort"
 	"strings"
+	"sync"
 	"time"
 
 	"github.com/diskfs/go-diskfs/backend"
@@ -95,6 +96,11 @@ type Disk struct {
 	pos      int64 // cursor for Read/Seek
 	ReadOnly bool  // Writable() refuses
 	closed   bool
+
+	// Locked serialises device calls with a mutex (only for code under test that uses the
+	// device from two goroutines of its own, e.g. sync.CopyPartitionRaw).
+	Locked bool
+	mu     sync.Mutex
 
 	// Hooks.
 	// Yield, when set, is called before and after every ReadAt (scheduler pre-emption point).
@@ -221,6 +227,10 @@ func (d *Disk) rawWrite(p []byte, off int64) {
 		if c > n-done {
 			c = n - done
 		}
+		if d.pages[idx] == nil && isZero(p[done:done+c]) {
+			done += c // zeros into a hole: stay sparse
+			continue
+		}
 		pg := d.pageForWrite(idx)
 		copy(pg.data[po:po+c], p[done:done+c])
 		done += c
@@ -258,6 +268,10 @@ func (d *Disk) FillNoise(off, n int64, seed uint64) {
 // ---- backend.File / io interfaces ----
 
 func (d *Disk) ReadAt(p []byte, off int64) (int, error) {
+	if d.Locked {
+		d.mu.Lock()
+		defer d.mu.Unlock()
+	}
 	if d.closed {
 		return 0, fs.ErrClosed
 	}
@@ -291,6 +305,10 @@ func (d *Disk) ReadAt(p []byte, off int64) (int, error) {
 }
 
 func (d *Disk) WriteAt(p []byte, off int64) (int, error) {
+	if d.Locked {
+		d.mu.Lock()
+		defer d.mu.Unlock()
+	}
 	if d.closed {
 		return 0, fs.ErrClosed
 	}
@@ -622,4 +640,49 @@ func LocusFromStack(stack []byte) string {
 
 func (e Event) String() string {
 	return fmt.Sprintf("#%d %s off=%d len=%d", e.Seq, e.Kind, e.Off, e.Len)
+}
+
+// HashExcept hashes the whole device with the given extents treated as zeros.
+func (d *Disk) HashExcept(ext []Extent) [32]byte {
+	h := sha256.New()
+	idxs := make([]int64, 0, len(d.pages))
+	for k := range d.pages {
+		idxs = append(idxs, k)
+	}
+	sort.Slice(idxs, func(i, j int) bool { return idxs[i] < idxs[j] })
+	var hdr [8]byte
+	var tmp [PageSize]byte
+	for _, k := range idxs {
+		pg := d.pages[k]
+		base := k * PageSize
+		buf := pg.data[:]
+		masked := false
+		for _, e := range ext {
+			lo, hi := e.Off, e.End()
+			if hi <= base || lo >= base+PageSize {
+				continue
+			}
+			if !masked {
+				tmp = pg.data
+				buf = tmp[:]
+				masked = true
+			}
+			if lo < base {
+				lo = base
+			}
+			if hi > base+PageSize {
+				hi = base + PageSize
+			}
+			clear(tmp[lo-base : hi-base])
+		}
+		if isZero(buf) {
+			continue
+		}
+		binary.LittleEndian.PutUint64(hdr[:], uint64(base))
+		h.Write(hdr[:])
+		h.Write(buf)
+	}
+	var out [32]byte
+	copy(out[:], h.Sum(nil))
+	return out
 }
